@@ -32,6 +32,17 @@ func c14Check(c *core.Ctx, cfg bandCfg, b band.Band, custom map[int]bool, netEna
 		c.Violate("C14|"+cfg.Name+"|planner-panic", "device %v after %s: %s", dev, hist, short(msg, 300))
 		return
 	}
+	if len(pls) > 0 && len(dev)%4 == 1 {
+		// the plan handed out is the caller's (the network server fills in DataRate / TXPower / NbTrans):
+		// overwriting one result must not change another, nor the next plan
+		keep := fmtPayloads(pls)
+		p2 := b.GetLinkADRReqPayloadsForEnabledUplinkChannelIndices(append([]int{}, dev...))
+		core.Scribble(&p2)
+		p3 := b.GetLinkADRReqPayloadsForEnabledUplinkChannelIndices(append([]int{}, dev...))
+		if fmtPayloads(pls) != keep || fmtPayloads(p3) != keep {
+			c.Violate("C14|"+cfg.Name+"|plan-shared", "overwriting one returned plan changed another: first %s, first now %s, next %s", keep, fmtPayloads(pls), fmtPayloads(p3))
+		}
+	}
 	devSet := map[int]bool{}
 	for _, d := range dev {
 		devSet[d] = true
